@@ -147,6 +147,25 @@ SetValues(f) == CASE f = "year" -> {W(-5), W(-4), W(-1), W(0), W(1), W(1900), W(
                   [] f = "micro" -> {W(0), W(999999), W(1000000), W(100000), W(100001)}
                   [] f = "nano" -> {W(0), W(999999999), W(1000000000), W(100000000), W(100000001), U32Max}
 AllSetFields == DateFields \cup ClockFields
+\* DateTimes whose local reading under offset o is the given wall-clock date and time (UTC date differs for large offsets)
+OffValsAll(dates, tods, offs) ==
+  UNION {LET u == UtcOf([dn |-> Ymd2Dn(l[1][1], l[1][2], l[1][3]), sod |-> l[2][1], ns |-> l[2][2]], o)
+         IN IF u.ok THEN {Dt(u.dn, u.sod, u.ns, o)} ELSE {} :
+           l \in {<<ymd, t>> : ymd \in dates, t \in tods}, o \in offs}
+OffVals(dates, tods, offs) == {v \in OffValsAll(dates, tods, offs) : InShard((v.dn % 1000) + v.sod + v.off + 86400)}
+YearEdgeDates == {<<2024, 1, 1>>, <<2023, 12, 31>>, <<2020, 12, 31>>, <<2021, 1, 1>>, <<2019, 12, 31>>, <<2024, 12, 30>>,
+                  <<2022, 5, 1>>, <<2022, 5, 2>>, <<1, 1, 1>>, <<-1, 12, 31>>, <<-5, 12, 31>>, <<-4, 1, 1>>}
+CalOffs == {0, 3600, -3600, 19800, -18000, 50400, -43200, 86399, -86399}
+CalTods == {<<0, 0>>, <<1800, 999>>, <<7200, 5>>, <<45296, 123456789>>, <<82800, 0>>, <<86399, 999999999>>}
+\* C01 / C02 read and written through a DateTime that carries an offset: the date is the local one
+C01(z) ==
+  LET vals == OffVals(LocalDates, CalTods, CalOffs)
+  IN UNION {{Case([op |-> "dt_set", f |-> f, v |-> v], a, a) : v \in SetValues(f)} : a \in vals, f \in {"year", "month", "day"}}
+     \cup {Case([op |-> "dt_get"], a, a) : a \in vals}
+C02(z) ==
+  LET vals == OffVals(YearEdgeDates \cup {<<2024, 2, 29>>, <<2023, 2, 28>>}, CalTods, CalOffs)
+  IN {Case([op |-> "dt_set", f |-> "doy", v |-> v], a, a) : a \in vals, v \in SetValues("doy")}
+     \cup {Case([op |-> "dt_get"], a, a) : a \in vals}
 C09(z) ==
   LET offs == {0, 1, -1, 3600, -3600, 19800, -19800, 86399, -86399}
       \* local wall-clock readings chosen so that the UTC date differs from the local date for large offsets
@@ -162,6 +181,8 @@ C09(z) ==
                    d \in (IF First THEN LocalDates ELSE {}), f \in DateFields}
      \cup {Case([op |-> "date_clear", f |-> f], DateV(Ymd2Dn(d[1], d[2], d[3])), DateV(0)) : d \in (IF First THEN LocalDates ELSE {}), f \in {"year", "month", "day"}}
      \cup {Case([op |-> "dt_get"], a, a) : a \in vals}
+     \cup {Case([op |-> "dt_as_ymdhms"], a, a) : a \in vals}
+     \cup {Case([op |-> "dt_fmt_get"], a, a) : a \in vals}
 
 (***************************************************************************)
 \* C10: offsets
@@ -174,6 +195,8 @@ C10(z) ==
      \cup {Case([op |-> op, o |-> o], Tm(t[1], t[2], p), Tm(0, 0, 0)) : op \in {"time_set_offset", "time_as_offset"},
              t \in KeyTods, o \in offs, p \in {0, 3600, -5}}
      \cup {Case([op |-> "dt_get"], DtV(i, o), DtV(i, o)) : i \in insts, o \in offs \ {86400, -86400}}
+     \cup {Case([op |-> "dt_as_ymdhms"], DtV(i, o), DtV(i, o)) : i \in insts, o \in offs \ {86400, -86400}}
+     \cup {Case([op |-> "dt_fmt_get"], DtV(i, o), DtV(i, o)) : i \in insts, o \in offs \ {86400, -86400}}
      \cup {Case([op |-> "time_get"], Tm(t[1], t[2], o), Tm(0, 0, 0)) : t \in KeyTods, o \in offs \ {86400, -86400}}
      \cup {Case([op |-> "off_from_seconds", s |-> s], DateV(0), DateV(0)) :
              s \in {W(o) : o \in offs} \cup {W(86401), W(-86401), W(2147483647), Neg(TwoTo31), W(-2147483647)}}
@@ -209,6 +232,12 @@ C05(z) ==
   IN {Case([op |-> "date_" \o op, n |-> W(n)], DateV(d), DateV(d)) : d \in mine, n \in counts, op \in ops}
      \cup {Case([op |-> "dt_" \o op, n |-> W(n)], Dt(d, 45296, 789, 0), Dt(d, 0, 0, 0)) :
              d \in {x \in mine : x % 7 = 0 \/ Dn2Ymd(x)[3] >= 28}, n \in {1, 12, 13}, op \in ops}
+     \* DateTimes carrying an offset, month ends, local date on either side of the stored date
+     \cup UNION {{Case([op |-> "dt_" \o op, n |-> W(n)], a, a) : n \in {0, 1, 2, 11, 12, 13, 48, 1200}, op \in ops} :
+                   a \in OffVals({<<2022, 1, 31>>, <<2024, 1, 31>>, <<2024, 2, 29>>, <<2023, 2, 28>>, <<2022, 3, 31>>, <<2022, 12, 31>>,
+                                  <<2022, 5, 15>>, <<1, 1, 31>>, <<-1, 12, 31>>, <<2096, 2, 29>>},
+                                 {<<0, 0>>, <<1800, 999>>, <<45296, 123456789>>, <<86399, 999999999>>},
+                                 {3600, -3600, 19800, 86399, -86399})}
      \cup {Case([op |-> ty \o op, n |-> n], IF ty = "date_" THEN DateV(d) ELSE Dt(d, 1, 2, 0), DateV(d)) :
              ty \in {"date_", "dt_"}, d \in (IF First THEN ends ELSE {}), op \in ops,
              n \in {W(0), W(1), W(5), W(6), W(7), W(12), W(70555338), W(141110676), W(141110677), W(11759222), W(11759223),
@@ -216,6 +245,8 @@ C05(z) ==
 
 (***************************************************************************)
 \* C07: all ordered pairs of a window straddling 0001-01-01 (exact clause and antisymmetry)
+MonthEndDays == UNION {UNION {{Ymd2Dn(y, m, d) : d \in {dd \in {1, 27, 28, 29, 30, 31} : ValidDate(y, m, dd)}} : m \in {1, 2, 3, 4, 12}} :
+                          y \in {2022, 2024, 1}}
 C07(z) ==
   LET lo == IF Thorough THEN Ymd2Dn(-1, 6, 1) ELSE Ymd2Dn(-1, 9, 15)
       hi == IF Thorough THEN Ymd2Dn(1, 7, 31) ELSE Ymd2Dn(1, 4, 15)
@@ -227,12 +258,23 @@ C07(z) ==
      \cup {Case([op |-> op], Dt(a, t[1], t[2], 0), Dt(b, u[1], u[2], 0)) :
              a \in {x \in mine : x % 5 = 0}, b \in {x \in win : x % 7 = 0}, t \in {<<0, 0>>, <<43200, 1>>}, u \in {<<0, 0>>, <<43200, 1>>, <<43200, 2>>},
              op \in {"dt_months_since", "dt_years_since"}}
+     \* month ends x times of day on both sides of each other (the time of day breaks the tie on the same day of month)
+     \cup {Case([op |-> op], Dt(a, t[1], t[2], 0), Dt(b, u[1], u[2], 0)) :
+             a \in {x \in MonthEndDays : InShard(x)}, b \in MonthEndDays,
+             t \in {<<28800, 0>>, <<43200, 1>>}, u \in {<<0, 0>>, <<43200, 1>>, <<64800, 0>>},
+             op \in {"dt_months_since", "dt_years_since"}}
+     \* the bracket relation with add_months, also for values carrying offsets
+     \cup UNION {{Case([op |-> "dt_months_bracket"], a, b) :
+                     b \in OffValsAll({<<2022, 1, 28>>, <<2022, 2, 28>>, <<2022, 1, 10>>, <<2021, 12, 31>>, <<2024, 2, 29>>},
+                                   {<<0, 0>>, <<1800, 0>>, <<43200, 1>>, <<84600, 0>>}, {0, 7200, -3600, 86399})} :
+                   a \in {x \in OffVals({<<2022, 2, 9>>, <<2022, 2, 28>>, <<2022, 3, 1>>, <<2022, 4, 1>>, <<2023, 2, 28>>, <<2024, 2, 29>>},
+                                         {<<600, 0>>, <<28800, 0>>, <<82800, 0>>}, {0, 7200, -3600, -86399}) : TRUE}}
      \cup {Case([op |-> op], DateV(a), DateV(b)) : op \in {"date_months_since", "date_years_since"},
              a \in (IF First THEN {MinDn, MaxDn, 0, Ymd2Dn(2022, 3, 1), Ymd2Dn(2021, 3, 1)} ELSE {}),
              b \in {MinDn, MaxDn, 0, Ymd2Dn(2022, 1, 31), Ymd2Dn(2020, 3, 1), Ymd2Dn(2020, 2, 29)}}
 
 \* (the families take a dummy parameter so that TLC does not pre-evaluate all of them as constants)
-Cases(z) == CASE Which = "C03" -> C03(z) [] Which = "C04" -> FixDateOperands(C04(z)) [] Which = "C05" -> C05(z)
+Cases(z) == CASE Which = "C01" -> C01(z) [] Which = "C02" -> C02(z) [] Which = "C03" -> C03(z) [] Which = "C04" -> FixDateOperands(C04(z)) [] Which = "C05" -> C05(z)
               [] Which = "C06" -> C06(z) [] Which = "C07" -> C07(z) [] Which = "C08" -> C08(z) [] Which = "C09" -> C09(z)
               [] Which = "C10" -> C10(z) [] Which = "C15" -> C15(z)
 
